@@ -58,7 +58,14 @@ What is proved here (about the model `Cedar/SchemaSyntax.lean`, tied to the code
                               duplicate (`collect_allows_entity_common_clash`); `collect_sorts_example`.
     Not proved: that the output of `collectFragment` is always key-sorted (insertion sort; only used through `FragKeysOK` inputs);
     when a text has both a duplicate and a per-declaration conversion error the model answers `syntax` first, Rust the duplicate.
+    TIED TO RUST by the checked correspondence `(sty collect-frag (toks …))` (Driver/Ops/SchemaSyntax.lean, harness/src/c09.rs
+    `emit_frag_collect`): `parseFragmentCollected` against `Fragment::from_cedarschema_str`, accepted fragments in `BTreeMap` KEY ORDER
+    (no sorting on either side), rejections by the class of the first `ToJsonSchemaError` (`DuplicateDeclarations` / `DuplicateNamespaces`
+    / other), on generated texts, their mutations and a family with repeated declarations / namespace blocks; the deviation above is
+    skipped and counted (`model:collect-frag:skipped-duplicate-and-conversion-error`).
   * THE REFUSAL CASES OF fmt.rs (`Cedar/SchemaFmtCheck.lean`: `toCedarChecked` = `json_schema_to_cedar_schema_str`):
+    (TIED TO RUST by `(sty to-cedar-checked <frag> (nonrec …))` against `Fragment::to_cedarschema()`: tokens, or the error class
+    `ToCedarSchemaSyntaxError::NameCollisions` / `UnconvertibleEntityTypeShape`; the colliding names themselves are not compared)
     `toCedar_refuses_iff`     refused iff some NAMED namespace declares a name both as entity type and as common type (`Collides`,
                               error `NameCollisions`, priority) or some standard entity type's shape is not a record literal
                               (`UnconvertibleEntityTypeShape`; such shapes are outside `EntityTypeJ` and passed as a name list);
@@ -79,6 +86,10 @@ What is proved here (about the model `Cedar/SchemaSyntax.lean`, tied to the code
                               `normFragment f.strip`; non-vacuity: `demoFragmentA`.  Annotations on record ATTRIBUTES are outside the
                               model; values are token-level strings (escaping belongs to the lexer); the JSON-side pairing of
                               converted entries with their annotations is not modelled (AST level only).
+                              TIED TO RUST by `(sty print-frag-a <afrag>)` (`printFragmentA` against `to_cedarschema` on fragments whose
+                              record attributes carry no annotations) and `(sty parse-frag-a (toks …))` (`parseItemsA` against the
+                              real grammar `parse_schema` incl. `deduplicate_annotations`: items in source order, annotation maps,
+                              declaration kinds; duplicate / value-less / dangling annotations among the mutations).
 NOT modelled (covered only by the four-way differential run of harness/src/c09.rs): the lexer and string escapes, annotations on record
 attributes, action `attributes`, records with additional attributes, JSON (de)serialisation, and everything `ValidatorSchema`
 construction does after name resolution (common-type inlining, cycle detection, hierarchy closure, action entities).
